@@ -21,7 +21,7 @@ claimed={
  "C16":("chunk arithmetic kernels with symbolic lengths: sizes for all key lengths, FP chunk count per key length, slice indices, reader step induction, metadata of the real set path on an abstract-length value","§C16","symbolic execution + SMT incl. floating-point theory"),
  "C17":("real inmem.Handler vs reference map: one symbolic command from every 2-key map state; 2 goroutines x 1 command under every interleaving at lock granularity with a lock-discipline monitor on the shared map","§C17","symbolic execution + SMT; exhaustive schedule exploration (bounded) with lock-discipline monitor"),
  "C18":("bit-count routine (amd64 assembly translated, portable body) equals its specification on all 2^64 inputs; bucket index in range, upper bound and monotone for all n <= 2^63-1; histogram periods read back through getAll*: count, percentiles within [min,max] and among the observations, ring wrap-around; counters = sum of increments under every interleaving of 2 goroutines; observer vs period switch under every interleaving","§C18","SSA and assembly translated to SMT bit-vectors, Z3"),
- "C19":("ring lookup for every 32-bit location on enumerated label sets: specification, order independence, single-removal stability","§C19","symbolic execution + SMT, one path per ring interval"),
+ "C19":("ring lookup for every 32-bit location on enumerated label sets: specification, order independence, single-removal stability; set and get of a symbolic key through two separately built cluster handlers reach the same node (MD5 uninterpreted)","§C19","symbolic execution + SMT, one path per ring interval"),
 }
 notes={
  "C01":"orchestrator step over model handlers, plus a fault-free whole-stack glue run with the real std handlers over the memcached model (thorough: wire-level pipelines of C08); bounds: 2 keys, values <= 2 bytes, gets <= 2 keys, clock frozen within a command",
